@@ -123,7 +123,7 @@ Notation "' pat <- m ;; k" := (bind m (fun x => match x with pat => k end))
 Definition take (w : nat) : P N :=
   fun bs p =>
     if (w =? 0)%nat then Ok (0%N, p)
-    else if (p + w <=? length bs)%nat then Ok (sl bs p w, (p + w)%nat)
+    else if (w + p <=? length bs)%nat then Ok (sl bs p w, (w + p)%nat)
     else Err EError.
 
 (* parsers.rs remaining_bits *)
